@@ -6,7 +6,8 @@
 (*                 every value vector over Vals incl. out-of-range / wrong-length ones,   *)
 (*                 single-variable index writes, assign).  Every transition is checked    *)
 (*                 against the read-after-write law through EVERY access path (RAW, an     *)
-(*                 assertion in Next); every state against PathsAgree / quadrature laws.  *)
+(*                 assertion in Next); every state against the quadrature laws (QuadSum), *)
+(*                 the fresh mesh against Fresh (zeros through every path).               *)
 (*  data1          every 1-D grid from Coords x every nodal data over Vals: interpolation *)
 (*                 laws (nodal values at nodes, the linear interpolant between neighbours,*)
 (*                 both cells agree at a shared node) at every point of the IScale-fold   *)
@@ -24,6 +25,7 @@ vars == <<t, m, d, hist>>
 MCCoords == {0, 1, 2, 4, 5}
 MCVals == {0, 1, 3}
 MCCoefs == {-1, 0, 2}
+MCCoefsSmall == {-1, 2}
 MCCoefsBig == {-2, 0, 1, 3}
 \* shape sets for the configurations (tuples cannot be written in .cfg files)
 AllShapes(n) == {<<a, b>> : a \in 2..n, b \in 2..n}
